@@ -929,10 +929,12 @@ def cross_crs(R: Run, O, gb):
         t = tf("EPSG:4326", crs)
         xs, ys = t.transform([lon - ext_deg / 2, lon + ext_deg / 2, lon, lon], [lat, lat, lat - ext_deg / 2, lat + ext_deg / 2])
         w, h = abs(xs[1] - xs[0]), abs(ys[3] - ys[2])
-        cx, cy = t.transform(lon, lat)
-        if not all(map(math.isfinite, (w, h, cx, cy))) or w <= 0 or h <= 0:
+        # the rectangle spans exactly the projected end points (projections are not linear in lon/lat: centring the
+        # box on the projected centre could push an edge beyond the valid domain of the projection)
+        left, top = min(xs[0], xs[1]), max(ys[2], ys[3])
+        if not all(map(math.isfinite, (w, h, left, top))) or w <= 0 or h <= 0:
             raise ValueError("degenerate")
-        return shape, Affine.translation(cx - w / 2, cy + h / 2) * Affine.scale(w / shape[1], -h / shape[0])
+        return shape, Affine.translation(left, top) * Affine.scale(w / shape[1], -h / shape[0])
 
     def one_case(a, b, sbox, dbox, pad, al, tag, step=1, rows=None, cols=None):
         (sshape, SA), (dshape, DA) = sbox, dbox
